@@ -7,6 +7,7 @@ from functools import lru_cache
 import numpy as np
 from hypothesis import strategies as st
 
+from mzverif import core
 from mzverif import gen as G
 from mzverif import lib as L
 from mzverif import model as M
@@ -14,7 +15,7 @@ from mzverif.core import Sub, Violation, call, require
 
 ID = "C02"
 LEVEL = "exploration"
-TECHNIQUE = "exhaustive enumeration (all graphs <= 3x3 x all ordered cell pairs) + Hypothesis graphs up to 12x12/30x30 + query sequences on one maze object (results overwritten by the caller, equal mazes rebuilt) + generator output with its metadata (every ordered pair); oracle = independent BFS model (validity predicate, not a single expected path)"
+TECHNIQUE = "exhaustive enumeration (all graphs <= 3x3 x all ordered cell pairs) + Hypothesis graphs up to 12x12/30x30 + query sequences on one maze object (results overwritten by the caller, equal mazes rebuilt) + generator output with its metadata (every ordered pair); oracle = independent BFS model (validity predicate, not a single expected path); the same check on several cases at once, one thread each (interleavings sampled)"
 RULE = (
     "case = (connection bits, start, end[, arg form, entry point]). Exhaustive part: every graph on every shape <=3x3 "
     "times every ordered pair of cells; random part: mixture of arbitrary / tree+extra-edges / forest graphs. "
@@ -482,6 +483,7 @@ def subs(tier: str):
             examples=150 if quick else 2500,
         ),
         Sub(name="query-sequences", check=check_sequence, kind="hypothesis", strategy=lambda: _sequences(10 if quick else 20), examples=60 if quick else 1000),
+        Sub(name="concurrent-threads", check=core.threaded(check), kind="hypothesis", strategy=core.threaded_strategy(_strategy(8 if quick else 14)), examples=8 if quick else 150, ambient=False),
         Sub(name="competing-routes-at-scale", check=check_routes, kind="hypothesis", strategy=lambda: _routes([70, 61, 100, 127, 47, 80] if quick else [70, 61, 100, 127, 47, 80, 128, 150]), examples=4 if quick else 40),
         Sub(name="same-flags-other-shape", check=check_twins, kind="hypothesis", strategy=_twins_strategy, examples=15 if quick else 300),
         Sub(name="ring-at-the-wrap-distance", check=check_routes, kind="hypothesis", strategy=_ring_gadget, examples=6 if quick else 200),
